@@ -133,7 +133,7 @@ def parseStep (j : Json) : Except String Step := do
 def parseCfg (j : Json) : Except String Cfg := do
   let b := fun k => match j.getObjVal? k with | .ok v => (match v.getBool? with | .ok x => x | .error _ => true) | .error _ => true
   pure { fixRekey := b "fixRekey", fixReprLogged := b "fixReprLogged", fixReprDiscrete := b "fixReprDiscrete",
-         fixNoiseLogged := b "fixNoiseLogged", fixNoiseFeedbacks := b "fixNoiseFeedbacks", fixFlattenLogged := b "fixFlattenLogged" }
+         fixNoiseLogged := b "fixNoiseLogged", fixNoiseFeedbacks := b "fixNoiseFeedbacks", fixFlattenLogged := b "fixFlattenLogged", fixHardenMixed := b "fixHardenMixed" }
 
 def errName : Err → String
   | .keyError => "KeyError" | .indexError => "IndexError" | .typeError => "TypeError" | .valueError => "ValueError"
